@@ -5,7 +5,7 @@ import copy
 import torch
 from typing import Sequence, Union, Dict, List
 from xitorch._utils.exceptions import GetSetParamsError
-from xitorch._utils.attr import get_attr, set_attr, del_attr
+from xitorch._utils.attr import get_attr, set_attr, del_attr, _get_attr, _preproc_name
 
 __all__ = ["EditableModule"]
 
@@ -33,8 +33,7 @@ class EditableModule(object):
             try:
                 set_attr(self, name, val)
             except TypeError as e:  # failed because val should be param
-                del_attr(self, name)
-                set_attr(self, name, val)
+                _set_nonparam_attr(self, name, val)
 
         return len(params)
 
@@ -361,6 +360,23 @@ class EditableModule(object):
             params.append(all_tensors[i])
 
         return names, params
+
+def _set_nonparam_attr(obj, name: str, val):
+    # Put a tensor that is not a torch.nn.Parameter under a name registered as
+    # a parameter of a torch.nn.Module.
+    # The name stays registered (with None, which torch.nn.Module skips) and the
+    # tensor shadows it as an ordinary attribute, so that the Parameter gets
+    # its own place in the registration order back when it is restored.
+    # (Deleting the name and setting it again would move it to the end.)
+    names = _preproc_name(name)
+    owner = _get_attr(obj, names[:-1]) if len(names) > 1 else obj
+    key = names[-1]
+    if isinstance(owner, torch.nn.Module) and key in owner._parameters:
+        owner.register_parameter(key, None)
+        owner.__dict__[key] = val
+    else:
+        del_attr(obj, name)
+        set_attr(obj, name, val)
 
 ############################ traversing functions ############################
 def _traverse_obj(obj, prefix, action, crit, max_depth=20, exception_ids=None):
